@@ -12,7 +12,7 @@ def Pc.afterClosing : Pc → Bool
 
 /-- The handler is on its way out (`handleLoop` returning). -/
 def Pc.winding : Pc → Bool
-  | .closingConn | .closed | .done => true
+  | .closingConn | .closed | .done | .drainBody true => true
   | _ => false
 
 def ClosePc.chanIsClosed : ClosePc → Bool
@@ -170,13 +170,16 @@ theorem hstep_ok_writeEnd {closing : Bool} {cpc : ClosePc} {h h' : Handler}
   have e4' := e4 b (Or.inr hpc)
   clear e4
   subst hs
-  cases b
-  · have hm := MarksOk_snoc (o := h.obsAtDecision) (a := h.reqClose || h.resClose) (b := false) e3 (by simp [e4'])
-    clear e4'
-    constructor <;> simp_all [Pc.inExchange, Pc.winding, Pc.afterClosing, Pc.counted, anyMarked_snoc] <;> (try omega)
-  · have hm := MarksOk_snoc (o := h.obsAtDecision) (a := h.reqClose || h.resClose) (b := true) e3 (by simp [e4'])
-    clear e4'
-    constructor <;> simp_all [Pc.inExchange, Pc.winding, Pc.afterClosing, Pc.counted, anyMarked_snoc] <;> (try omega)
+  cases hbo : h.bodyOpen <;> cases b
+  all_goals first
+   | (have hm := MarksOk_snoc (o := h.obsAtDecision) (a := h.reqClose || h.resClose) (b := false) e3 (by simp [e4'])
+      clear e4'
+      constructor <;> simp_all [Pc.inExchange, Pc.winding, Pc.afterClosing, Pc.counted, anyMarked_snoc] <;> (try omega)
+      done)
+   | (have hm := MarksOk_snoc (o := h.obsAtDecision) (a := h.reqClose || h.resClose) (b := true) e3 (by simp [e4'])
+      clear e4'
+      constructor <;> simp_all [Pc.inExchange, Pc.winding, Pc.afterClosing, Pc.counted, anyMarked_snoc] <;> (try omega)
+      done)
 
 theorem hstep_ok_closeConn {closing : Bool} {cpc : ClosePc} {h h' : Handler}
     (hg : cpc = .returned → closing = true) (ok : HOk closing cpc h)
@@ -262,6 +265,22 @@ theorem hstep_ok_h2PeerEnd {closing : Bool} {cpc : ClosePc} {h h' : Handler}
   cases hpc : h.pc <;> simp [hstep, hpc, Pc.readable] at hs
   all_goals (first | (obtain ⟨hc, hs⟩ := hs; subst hs; hok_tac) | (subst hs; hok_tac))
 
+theorem hstep_ok_gotReqOpen {closing : Bool} {cpc : ClosePc} {h h' : Handler} {rc : Bool}
+    (hg : cpc = .returned → closing = true) (ok : HOk closing cpc h)
+    (hs : hstep closing cpc.holdsMu (decide (cpc = .returned)) h (.gotReqOpen rc) = some h') : HOk closing cpc h' := by
+  obtain ⟨e1, e2, e3, e4, e5, e6, e7, e8, e9, e9', e9'', e10, e11⟩ := ok
+  cases hpc : h.pc <;> simp [hstep, hpc, Pc.readable] at hs
+  all_goals (first | (obtain ⟨hc, hs⟩ := hs; subst hs; hok_tac) | (subst hs; hok_tac))
+
+theorem hstep_ok_bodyDone {closing : Bool} {cpc : ClosePc} {h h' : Handler}
+    (hg : cpc = .returned → closing = true) (ok : HOk closing cpc h)
+    (hs : hstep closing cpc.holdsMu (decide (cpc = .returned)) h (.bodyDone) = some h') : HOk closing cpc h' := by
+  obtain ⟨e1, e2, e3, e4, e5, e6, e7, e8, e9, e9', e9'', e10, e11⟩ := ok
+  cases hpc : h.pc <;> simp [hstep, hpc, Pc.readable] at hs
+  rename_i b
+  subst hs
+  cases b <;> hok_tac
+
 theorem hstep_ok_rtFail {closing : Bool} {cpc : ClosePc} {h h' : Handler}
     (hg : cpc = .returned → closing = true) (ok : HOk closing cpc h)
     (hs : hstep closing cpc.holdsMu (decide (cpc = .returned)) h (.rtFail) = some h') : HOk closing cpc h' := by
@@ -329,6 +348,8 @@ theorem hstep_ok {closing : Bool} {cpc : ClosePc} {h h' : Handler} {l : HL}
   | h2Stop => exact hstep_ok_h2Stop hg ok hs
   | h2PeerEnd => exact hstep_ok_h2PeerEnd hg ok hs
   | rtFail => exact hstep_ok_rtFail hg ok hs
+  | gotReqOpen rc => exact hstep_ok_gotReqOpen hg ok hs
+  | bodyDone => exact hstep_ok_bodyDone hg ok hs
 
 /-! ### facts about the control part of `hstep` -/
 
@@ -336,7 +357,7 @@ theorem hstep_pc_ne_accepted {c mu r : Bool} {h h' : Handler} {l : HL}
     (hs : hstep c mu r h l = some h') : h'.pc ≠ .accepted := by
   cases l <;> cases hpc : h.pc <;> simp [hstep, hpc, Pc.readable] at hs
   all_goals (first | (obtain ⟨_, hs⟩ := hs; subst hs; simp) | (subst hs; simp) | skip)
-  all_goals (first | (cases c <;> simp; done) | (split <;> simp; done) | (rename_i b; cases b <;> simp))
+  all_goals (first | (cases c <;> simp; done) | (split <;> simp; done) | (rename_i b; cases b <;> simp <;> (try (cases hbo : h.bodyOpen <;> simp [hbo]))))
 
 theorem hstep_from_accepted {c mu r : Bool} {h h' : Handler} {l : HL}
     (hs : hstep c mu r h l = some h') (hp : h.pc = .accepted) : l = .spawn := by
@@ -357,7 +378,7 @@ theorem hstep_counted {c mu r : Bool} {h h' : Handler} {l : HL}
     (l ≠ .add → l ≠ .finish → h'.pc.counted = h.pc.counted) := by
   cases l <;> cases hpc : h.pc <;> simp [hstep, hpc, Pc.readable] at hs
   all_goals (first | (obtain ⟨_, hs⟩ := hs; subst hs; simp [Pc.counted]) | (subst hs; simp [Pc.counted]) | skip)
-  all_goals (first | (cases c <;> simp [Pc.counted]; done) | (split <;> simp [Pc.counted]; done) | (cases hcn : h.conn <;> simp [Pc.counted]; done) | (rename_i b; cases b <;> simp [Pc.counted]))
+  all_goals (first | (cases c <;> simp [Pc.counted]; done) | (split <;> simp [Pc.counted]; done) | (cases hcn : h.conn <;> simp [Pc.counted]; done) | (rename_i b; cases b <;> simp [Pc.counted] <;> (try (cases hbo : h.bodyOpen <;> simp [hbo, Pc.counted]))))
 
 theorem cnt_set {hs : List Handler} {k : Nat} {h h' : Handler} (hk : hs[k]? = some h) :
     cnt (hs.set k h') + (if h.pc.counted then 1 else 0) = cnt hs + (if h'.pc.counted then 1 else 0) := by
@@ -613,7 +634,7 @@ def Pc.rank : Pc → Nat
   | .accepted => 20 | .spawned => 19 | .added => 18 | .haveReq => 17 | .inReqmod => 16 | .postReqmod => 15
   | .inRoundTrip => 14 | .dialing => 14 | .postRoundTrip => 13 | .inResmod => 12 | .postResmod => 11
   | .decided _ => 10 | .cwriting => 10 | .writing _ => 9
-  | .tunnel => 8 | .mitmPeek => 8 | .mitmHandshake => 7 | .h2session => 6
+  | .tunnel => 8 | .mitmPeek => 8 | .mitmHandshake => 7 | .h2session => 6 | .drainBody _ => 5
   | .idleRead => 4 | .midHead => 3
   | .closingConn => 2 | .closed => 1 | .done => 0
 
@@ -653,7 +674,8 @@ theorem hsum_set {hs : List Handler} {k : Nat} {h h' : Handler} (hk : hs[k]? = s
 
 /-- Every handler step except the arrival of a new request decreases the rank. -/
 theorem hstep_rank {c mu r : Bool} {h h' : Handler} {l : HL}
-    (hs : hstep c mu r h l = some h') (hl : ∀ rc, l ≠ .gotReq rc) (hl2 : l ≠ .gotConnect) :
+    (hs : hstep c mu r h l = some h') (hl : ∀ rc, l ≠ .gotReq rc) (hl2 : l ≠ .gotConnect)
+    (hl3 : ∀ rc, l ≠ .gotReqOpen rc) :
     h'.pc.rank < h.pc.rank := by
   cases l <;> cases hpc : h.pc <;> simp [hstep, hpc, Pc.readable] at hs
   all_goals (first | (obtain ⟨_, hs⟩ := hs; subst hs; simp [Pc.rank]; done) | (subst hs; simp [Pc.rank]; done) | skip)
@@ -661,9 +683,10 @@ theorem hstep_rank {c mu r : Bool} {h h' : Handler} {l : HL}
     | (subst hs; cases c <;> simp [Pc.rank]; done)
     | (subst hs; split <;> simp [Pc.rank]; done)
     | (subst hs; cases hcn : h.conn <;> simp [Pc.rank]; done)
-    | (subst hs; rename_i b; cases b <;> simp [Pc.rank]; done)
+    | (subst hs; rename_i b; cases b <;> simp [Pc.rank] <;> (try (cases hbo : h.bodyOpen <;> simp [hbo, Pc.rank])); done)
     | (exact absurd rfl (hl _))
-    | (exact absurd rfl hl2))
+    | (exact absurd rfl hl2)
+    | (exact absurd rfl (hl3 _)))
 
 theorem drain_step_decreases {s s' : Sys} {l : Label} (hs : step s l = some s') (hi : l.drain = true) :
     measure s' < measure s := by
@@ -708,6 +731,8 @@ theorem drain_step_decreases {s s' : Sys} {l : Label} (hs : step s l = some s') 
       intro rc e; subst e; simp [Label.drain, Label.internal, Label.peerMove] at hi
     have hl2 : l ≠ .gotConnect := by
       intro e; subst e; simp [Label.drain, Label.internal, Label.peerMove] at hi
+    have hl3 : ∀ rc, l ≠ .gotReqOpen rc := by
+      intro rc e; subst e; simp [Label.drain, Label.internal, Label.peerMove] at hi
     simp only [step] at hs
     split at hs
     · cases hs
@@ -719,7 +744,7 @@ theorem drain_step_decreases {s s' : Sys} {l : Label} (hs : step s l = some s') 
         · cases hs
         · rename_i h' hh
           cases hs
-          have hr := hstep_rank hh hl hl2
+          have hr := hstep_rank hh hl hl2 hl3
           have hset := hsum_set (h' := h') hk
           simp only [measure]
           have hacc : (if l = .spawn then AccPc.top else s.acc).rank ≤ s.acc.rank := by
@@ -771,6 +796,7 @@ def Handler.next (h : Handler) : HL :=
   | .tunnel => .tunnelEnd
   | .mitmPeek => .peeked false
   | .mitmHandshake => .handshakeEnd .fail
+  | .drainBody _ => .bodyDone
   | .closingConn => .closeConn
   | _ => .finish
 
@@ -898,7 +924,9 @@ theorem hstep_track {i : Nat} {mu r : Bool} {h h' : Handler} {l : HL}
       | (refine ⟨by simp; omega, o, a, ?_⟩
          simp [List.getElem?_append_left hlt, h2])
   · cases l <;> cases hpc : h.pc <;> simp [hstep, hpc, Pc.readable, Pc.winding] at hs hw
-    all_goals (subst hs; right; right; simp [h2, Pc.winding])
+    all_goals first
+      | (subst hs; right; right; simp_all [Pc.winding]; done)
+      | (rename_i b; cases b <;> simp [Pc.winding] at hw; subst hs; right; right; simp [h2, Pc.winding])
 
 theorem step_track {s s' : Sys} {l : Label} {k c : Nat} {h : Handler}
     (hc : s.closing = true) (hk : s.hs[k]? = some h) (ht : Track c h) (hs : step s l = some s') :
@@ -1021,26 +1049,26 @@ theorem run_noFaults {sched : List Label} {s s' : Sys} (hn : NoFaults s)
 /-- A handler from which no tunnel can arise without a new request: it is not waiting for a peer, not
 inside the CONNECT-only steps, and the exchange it is in (if any) is not a CONNECT. -/
 def Handler.plain (h : Handler) : Bool :=
-  !h.pc.peerBlocked && h.pc != .dialing && h.pc != .cwriting &&
+  !h.pc.peerBlocked && h.pc != .dialing && h.pc != .cwriting && !h.bodyOpen &&
     (!(h.pc.inExchange || h.pc == .haveReq) || h.conn == .no)
 
 theorem hstep_plain {c mu r : Bool} {h h' : Handler} {l : HL} (hs : hstep c mu r h l = some h')
-    (hp : h.plain = true) (hl : l ≠ .gotConnect) : h'.plain = true := by
+    (hp : h.plain = true) (hl : l ≠ .gotConnect) (hl2 : ∀ rc, l ≠ .gotReqOpen rc) : h'.plain = true := by
   cases l <;> cases hpc : h.pc <;> simp [hstep, hpc, Pc.readable] at hs
-  all_goals (first | (exact absurd rfl hl) | skip)
+  all_goals (first | (exact absurd rfl hl) | (exact absurd rfl (hl2 _)) | skip)
   all_goals (first | (obtain ⟨hc, hs⟩ := hs; subst hs) | (subst hs))
   all_goals (simp [Handler.plain, hpc, Pc.peerBlocked, Pc.inExchange] at hp ⊢)
   all_goals (first
     | done
     | (simp_all; done)
-    | (cases c <;> simp [Pc.peerBlocked, Pc.inExchange]; done)
+    | (cases c <;> simp_all [Pc.peerBlocked, Pc.inExchange]; done)
     | (split <;> simp_all [Pc.peerBlocked, Pc.inExchange]; done)
-    | (rename_i b; cases b <;> simp_all [Pc.peerBlocked, Pc.inExchange]))
+    | (rename_i b; cases b <;> simp_all [Pc.peerBlocked, Pc.inExchange] <;> (try (cases hbo : h.bodyOpen <;> simp_all [Pc.peerBlocked, Pc.inExchange]))))
 
 def AllPlain (s : Sys) : Prop := ∀ h ∈ s.hs, h.plain = true
 
 theorem step_allPlain {s s' : Sys} {l : Label} (hp : AllPlain s) (hl : ∀ k, l ≠ .h k .gotConnect)
-    (hs : step s l = some s') : AllPlain s' := by
+    (hl2 : ∀ k rc, l ≠ .h k (.gotReqOpen rc)) (hs : step s l = some s') : AllPlain s' := by
   cases l with
   | h k l =>
     simp only [step] at hs
@@ -1058,6 +1086,7 @@ theorem step_allPlain {s s' : Sys} {l : Label} (hp : AllPlain s) (hl : ∀ k, l 
           · exact hp x hx
           · subst hx
             exact hstep_plain hh (hp h (List.mem_of_getElem? hk)) (by intro e; subst e; exact hl k rfl)
+              (by intro rc e; subst e; exact hl2 k rc rfl)
   | accept =>
     simp only [step] at hs
     split at hs <;> cases hs
@@ -1076,7 +1105,7 @@ theorem step_allPlain {s s' : Sys} {l : Label} (hp : AllPlain s) (hl : ∀ k, l 
 
 theorem plain_not_blocked {h : Handler} (hp : h.plain = true) : h.pc.peerBlocked = false := by
   simp [Handler.plain] at hp
-  exact hp.1.1.1
+  exact hp.1.1.1.1
 
 /-- Bookkeeping of the further `Close` callers: every such call is still pending or has panicked. -/
 def CallsOk (s : Sys) : Prop := s.calls2 = s.extra + s.panics
